@@ -26,6 +26,18 @@ def _assignment_of(f, ev):
     return None
 
 
+def _assignment_of_value(f, valnode):
+    """name of the variable that is assigned the value of this node (`x = call(...)`), or None"""
+    for b in f.blocks.values():
+        for el in b.elems:
+            for n in f.walk(el):
+                if n["k"] == "bin" and n["op"] == "=" and RU.uncast(f, n["a"][1]) is valnode:
+                    l = f.d(n["a"][0])
+                    if l is not None and l["k"] == "var":
+                        return l["n"]
+    return None
+
+
 def decl_init(f, name):
     for e in f.all_events():
         if e.kind == "decl":
@@ -86,7 +98,7 @@ def caches(R, P, fns):
                 kinds.append("overflow")
             elif r is not None and op == "<" and r["k"] == "call" and r.get("callee") == "aws_linked_hash_table_get_element_count" and ls == "cache->max_items":
                 kinds.append("overflow")
-            elif via_prev and ls == "node->prev" and op == "!=" and (r is None or f.is_const(r) == 0):
+            elif via_prev and l["k"] == "member" and l["f"] == "prev" and l.get("rec") == "aws_linked_list_node" and op == "!=" and (r is None or f.is_const(r) == 0):
                 kinds.append("has-predecessor")
             else:
                 kinds.append("other:%s %s %s" % (ls, op, rs))
@@ -244,40 +256,61 @@ def table(R, P, fns):
                         "a successful return is reached with %s appends: an overwritten entry keeps its old position (FIFO/LIFO/LRU then evict the wrong entry)" % sorted(sts_))
     if not (cr and ed and kd and pb and alloc):
         return
+    # names are taken from the code's own roles, not from its spelling: the table / key / value parameters by position,
+    # the fresh node = the variable initialised from the allocation, the element = the variable handed to create by
+    # address, the status = the variable holding create's result (or the call tested directly); temporaries are seen through
+    p_table, p_key, p_val = (p["n"] for p in f.params[:3])
+    S = lambda n: f.show(RU.uncast(f, n), alias=True) if n is not None else None
+
+    def var_from(call_ev):
+        for e in f.all_events():
+            if e.kind == "decl":
+                for v in e.node["vars"]:
+                    if v.get("init") is not None and RU.uncast(f, v["init"]) is call_ev.node:
+                        return v["n"]
+        a = _assignment_of_value(f, call_ev.node)
+        return a
+    new_node = var_from(alloc[0])
+    elem = argstr(f, cr[0].node, 2)
+    status = var_from(cr[0])
+    if not R.require(bool(new_node) and bool(elem), "linked_hash_table_put: the fresh node / the element variable not identified"):
+        return
     st_key = [e for e in f.field_accesses(rec="aws_hash_element", field="key", modes=("w",))]
     st_val = [e for e in f.field_accesses(rec="aws_hash_element", field="value", modes=("w",))]
     R.check(len(st_key) == 1 and ev_dominates(f, ed[0], kd[0], dom) and (st_key[0] in RU.reach_from(f, kd[0])) and ev_dominates(f, ed[0], st_key[0], dom), "PUT", "overwrite-order", where(f, ed[0]),
             "old node destroyed, then old key (if different), then the new key installed", "the overwrite path does not destroy the old node / old key before installing the new key")
-    gs = [(f.show(RU.uncast(f, g[0])), g[1], f.show(RU.uncast(f, g[2])) if g[2] is not None else None) for g in [RU.cmp_norm(f, c, p) for c, p, b in RU.guards(f, kd[0], dom)] if g]
-    R.check(("element->key", "!=", "key") in gs and ("table->user_on_key_destroy", "!=", None) in gs and ("element->value", "!=", None) in gs, "PUT", "old-key-destroyed-only-when-different", where(f, kd[0]),
+    gs = [(S(g[0]), g[1], S(g[2]) if g[2] is not None and f.is_const(RU.uncast(f, g[2])) != 0 else None) for g in [RU.cmp_norm(f, c, p) for c, p, b in RU.guards(f, kd[0], dom)] if g]
+    R.check((elem + "->key", "!=", p_key) in gs and (p_table + "->user_on_key_destroy", "!=", None) in gs and (elem + "->value", "!=", None) in gs, "PUT", "old-key-destroyed-only-when-different", where(f, kd[0]),
             "the old key is destroyed only when a destructor is set, an entry existed and the pointer differs (%s)" % gs, "the key destructor's guards are %s" % gs)
-    R.check(f.show(RU.arg(f, kd[0].node, 0)).endswith("element->key"), "PUT", "destroys-the-old-key", where(f, kd[0]), "the key destroyed is the element's old key")
-    R.check(argstr(f, ed[0].node, 0, addr=False) == "element->value", "PUT", "destroys-the-old-node", where(f, ed[0]), "the node destroyed is the element's old value")
+    R.check(S(RU.arg(f, kd[0].node, 0)) == elem + "->key", "PUT", "destroys-the-old-key", where(f, kd[0]), "the key destroyed is the element's old key")
+    R.check(S(RU.arg(f, ed[0].node, 0)) == elem + "->value", "PUT", "destroys-the-old-node", where(f, ed[0]), "the node destroyed is the element's old value")
     a = _assignment_of(f, st_key[0]) if st_key else None
-    R.check(a is not None and f.show(a["a"][1]) == "key", "PUT", "element-gets-new-key", where(f, st_key[0]) if st_key else f.name, "element->key = key")
+    R.check(a is not None and S(a["a"][1]) == p_key, "PUT", "element-gets-new-key", where(f, st_key[0]) if st_key else f.name, "element->key = key")
     # the new node
-    want = {"value": "p_value", "key": "key", "table": "table"}
+    want = {"value": p_val, "key": p_key, "table": p_table}
     for fld, src in want.items():
         st = [e for e in f.field_accesses(rec="aws_linked_hash_table_node", field=fld, modes=("w",))]
         a = _assignment_of(f, st[0]) if len(st) == 1 else None
-        R.check(a is not None and f.show(a["a"][1]) == src and f.show(st[0].node["a"][0]) == "node", "PUT", "new-node.%s" % fld, where(f, st[0]) if st else f.name, "node->%s = %s" % (fld, src),
-                "the new node's %s is set from %s instead of the caller's %s: iteration and eviction would see a stale %s" % (fld, f.show(a["a"][1]) if a else "nothing", src, fld))
-        if st and ed:
-            # set after the old node was destroyed is fine either way, but it must not read the old element's fields after they are destroyed
-            pass
+        R.check(a is not None and S(a["a"][1]) == src and S(st[0].node["a"][0]) == new_node, "PUT", "new-node.%s" % fld, where(f, st[0]) if st else f.name, "node->%s = %s" % (fld, src),
+                "the new node's %s is set from %s instead of the caller's %s: iteration and eviction would see a stale %s" % (fld, S(a["a"][1]) if a else "nothing", src, fld))
     a = _assignment_of(f, st_val[0]) if len(st_val) == 1 else None
-    R.check(a is not None and f.show(a["a"][1]) == "node", "PUT", "element-points-to-new-node", where(f, st_val[0]) if st_val else f.name, "element->value = node")
-    R.check(argstr(f, pb[0].node, 0) == "table->list" and argstr(f, pb[0].node, 1) == "node->node", "PUT", "appended-to-list", where(f, pb[0]), "the new node is appended to the iteration list (re-insertion moves the entry to the back)")
+    R.check(a is not None and S(a["a"][1]) == new_node, "PUT", "element-points-to-new-node", where(f, st_val[0]) if st_val else f.name, "element->value = node")
+    R.check(argstr(f, pb[0].node, 0) == p_table + "->list" and argstr(f, pb[0].node, 1) == new_node + "->node", "PUT", "appended-to-list", where(f, pb[0]), "the new node is appended to the iteration list (re-insertion moves the entry to the back)")
     # exactly one push on every successful path; failing create releases the node
     tsx = Typestate(f, 0, lambda e, s: min(s + 1, 2) if e is pb[0] else s)
     R.check(tsx.exit_states <= {0, 1}, "PUT", "appended-at-most-once", "%s()" % f.name, "no path appends twice")
-    rel = [e for e in f.calls("aws_mem_release") if argstr(f, e.node, 1, addr=False) == "node"]
+    rel = [e for e in f.calls("aws_mem_release") if argstr(f, e.node, 1, addr=False) == new_node]
     okrel = False
     for r_ in rel:
         for c, p, b in RU.guards(f, r_, dom):
-            g = RU.cmp_norm(f, c, p)
-            if g and g[2] is None and f.show(RU.uncast(f, g[0])) == "err_val" and g[1] == "!=":
+            t_ = RU.call_test(f, c, p)
+            if t_ and t_[0] is cr[0].node and t_[1] == "nonzero":
                 okrel = True
+            g = RU.cmp_norm(f, c, p)
+            if g and g[1] == "!=" and (g[2] is None or f.is_const(RU.uncast(f, g[2])) == 0):
+                l_ = RU.uncast(f, g[0])
+                if l_ is not None and ((l_["k"] == "var" and status and l_["n"] == status) or l_ is cr[0].node):
+                    okrel = True
     R.check(okrel, "PUT", "failed-create-releases-node", "%s()" % f.name, "a failed create releases the fresh node", "a failed create leaks the fresh node")
     for r_ in rel:
         R.check(pb[0] not in RU.reach_from(f, r_), "PUT", "released-node-not-linked", where(f, r_), "a released node is never linked")
